@@ -1208,10 +1208,15 @@ func runC19(tier, replay string) int {
 		// debugging aid: run one schedule of the list, e.g. --replay index:19
 		idx, _ := strconv.Atoi(strings.TrimPrefix(replay, "index:"))
 		scs = []LockSchedule{c19Schedule(r.Seed, idx)}
+	} else if strings.HasPrefix(replay, "sweep:") {
+		// debugging aid: the command-tree sweep of one command, e.g. --replay "sweep:bridge pull"
+		runC19Sweep(r, nil, strings.TrimPrefix(replay, "sweep:"))
+		return r.Finish("command-tree sweep of one command"+c19SweepRule, 0, c19SweepAssumptions)
 	} else if replay != "" {
 		var rep struct {
 			Case struct {
 				Schedule LockSchedule `json:"schedule"`
+				Sweep    *c19SwJob    `json:"sweep"`
 			} `json:"case"`
 		}
 		data, err := os.ReadFile(replay)
@@ -1221,6 +1226,10 @@ func runC19(tier, replay string) int {
 		if err != nil {
 			fmt.Println("cannot read replay:", err)
 			return 2
+		}
+		if rep.Case.Sweep != nil {
+			runC19Sweep(r, []c19SwJob{*rep.Case.Sweep}, "")
+			return r.Finish("replay of one command-tree sweep job"+c19SweepRule, 0, c19SweepAssumptions)
 		}
 		scs = []LockSchedule{rep.Case.Schedule}
 	} else {
@@ -1401,7 +1410,12 @@ func runC19(tier, replay string) int {
 			fmt.Printf("HARNESS-NOTE property=C19 %d of %d %q schedules did not reach the situation they are about and were not counted (see schedules_not_reached in the evidence)\n", n, perKind[kind], kind)
 		}
 	}
-	return r.Finish("process schedules on fresh repositories, list = f(seed, tier): contend (web UI holder ready, 0..2 contenders, SIGINT/SIGTERM/SIGKILL, 1..2 new openers), "+
+	sweepOK, sweepMin := true, 0
+	if replay == "" {
+		sweepOK = runC19Sweep(r, nil, "")
+		sweepMin = 60
+	}
+	rc := r.Finish("process schedules on fresh repositories, list = f(seed, tier): contend (web UI holder ready, 0..2 contenders, SIGINT/SIGTERM/SIGKILL, 1..2 new openers), "+
 		"build (process parked at the cache.build hook with the lock taken, optional contender, signal, new openers), failing (1..3 failing commands each followed by a lock-file check, with and without identity), "+
 		"chain (successful commands incl. wipe, lock check after each), torn (empty lock file as left by a kill between create and write, then openers), toctou (two openers started together, delayed at cache.lock.window by 1.2 s and 4 s, so both pass the availability check before either creates the lock), zombie (informational), "+
 		"created (an opener delayed at cache.lock.created and then stopped with SIGSTOP while the lock file it created is still empty; 1..2 other openers incl. long-lived ones run meanwhile; it is resumed and must be the only one granted the cache; the lock file is checked while it is parked), "+
@@ -1410,8 +1424,8 @@ func runC19(tier, replay string) int {
 		"ho-race / ho-freeze / ho-chain / ho-stale (hand-over: ready holder + 2..3 openers started 0..35 ms apart, mostly long-lived; race = the holder is signalled 0..320 ms after their start, optionally one more opener right after the signal; freeze = one opener is stopped with SIGSTOP at that moment, the holder closed and reaped, a fresh opener started, one of the others waited for, then the frozen one released; "+
 		"chain = the first openers get 320 ms to be turned away, the holder is signalled and two fresh openers started at once; stale = holder killed and reaped, then the openers started together; then every opener that becomes ready is observed, signalled, reaped, observed, until all are gone, and a last command must find the cache free); "+
 		"ho-held (a long-lived opener is run under a small system-call tracer, `vh child c19-hold`, which keeps ONE of its threads at the entry of the call by which it asks the kernel whether the pid it read from the lock file is alive — pidfd_open(pid)/kill(pid,0) — or, the holder having been killed before, at the entry of its unlink of the lock file; meanwhile the holder closes or is killed and is reaped and another long-lived opener is started and waited for; then the thread is let go, the lock file watched until it changes or the opener resolves, and the openers drained as above); "+
-		"the recorded event log is checked offline by refmodel.CheckLockLog; non-trivial = at least 2 resolved open attempts and 2 observations; distinct = distinct schedule shape (kind, holder, contender classes, signal, later openers)",
-		r.Pick(12, 60), []string{
+		"the recorded event log is checked offline by refmodel.CheckLockLog; non-trivial = at least 2 resolved open attempts and 2 observations; distinct = distinct schedule shape (kind, holder, contender classes, signal, later openers)"+c19SweepRule,
+		r.Pick(12, 60)+sweepMin, append([]string{
 			"a process is taken to hold the cache from the moment it printed the cache-build banner or (web UI) its URL while owning its listening socket, until the harness signals it or it is reaped",
 			"a command that exits 0 is taken to have opened the cache",
 			"hook delays (VERIF_HOOK_DELAYS), the steering pauses of the hand-over schedules and the freezing of an opener only steer; no verdict depends on elapsed time",
@@ -1420,7 +1434,11 @@ func runC19(tier, replay string) int {
 			"a process stopped with SIGSTOP (all threads seen in state T) while the lock file exists and is empty, being the only live process of the schedule and the file being absent before its start, is a live process between its exclusive creation of the lock file and its pid write; that file is its lock",
 			"created / xuid / traced / ho-held schedules whose situation cannot be produced (hook point absent from the build, accounts not separable or no tracer attachable in this environment) are reported as not reached and left out of the counts",
 			"a thread kept by a tracer at the entry of a system call has not made that call; holding it there is an environment action (a thread can be held up anywhere, for any time) and nothing is derived from it but the suffix of the finding key",
-		})
+		}, c19SweepAssumptions...))
+	if rc == 0 && !sweepOK {
+		return 1 // the sweep observed too little (the reason was printed)
+	}
+	return rc
 }
 
 func trimEvents(evs []refmodel.LockEvent) []refmodel.LockEvent {
